@@ -31,7 +31,8 @@ def run(ctx):
     nested_runs(ctx, ctx.n(20, 300))
     past_till(ctx, ctx.n(30, 500))
     oracle_correspondence(ctx, ctx.n(300, 3000))
-    after_reuse_correspondence(ctx, ctx.n(200, 2000))
+    with watch.quiet_heap():
+        after_reuse_correspondence(ctx, ctx.n(200, 2000))
     kernel_correspondence(ctx, ctx.n(200, 2000))
     exact_clocks(ctx, ctx.n(40, 400))
     reused_conditions(ctx, ctx.n(20, 300))
@@ -316,6 +317,8 @@ def after_reuse_correspondence(ctx, n):
             self.ident, self.log, self.time = ident, log, 0
 
         def schedule(self, target, signal=None, *, delay=None, at=None):
+            if at is None:
+                return               # (not a trigger: a call made by a finaliser of unrelated garbage)
             self.log.append(self.ident)
             target.close()
     cases = []
